@@ -589,8 +589,8 @@ def cases(seed, tier, sees_used=True, leak_masked=False):
     Quick: every shape with ALL role permutations of one name pool (pool rotates with shape and seed) for shapes of up to 3
     schemas; shapes of 4 schemas get all 24 permutations when they are `core` (an item is reached only through another
     schema's pending partial list) and 3 seed-rotated ones otherwise (fans: 3 of 6); one file order per permutation (rotating), both for core
-    shapes of up to 3.  Thorough: all permutations; two pools and two file orders for shapes of up to 3 schemas, one rotating order for
-    shapes of 4 (two pools when core)."""
+    shapes of up to 3.  Thorough: all permutations (shapes of 4 that are not core: every second one, 12 of 24); two file orders for shapes of
+    up to 3 schemas, one rotating order for shapes of 4; core shapes with two name pools."""
     quick = tier == 'quick'
     rng = random.Random('c04iface/%d' % seed)
     vs, fs = valid_specs(tier), fault_specs(tier)
@@ -608,9 +608,10 @@ def cases(seed, tier, sees_used=True, leak_masked=False):
             if pools[0] is pools[1]:
                 pools[1] = POOLS[(POOLS.index(pools[0]) + 1) % len(POOLS)]
             if n <= 3:
-                valid += instantiate(sp, pools, None, (0, 1), each_order=True, sees_used=sees_used)
+                valid += instantiate(sp, pools if core else pools[:1], None, (0, 1), each_order=True, sees_used=sees_used)
             else:
-                valid += instantiate(sp, pools if core else pools[:1], None, tuple(range(n + 1)), each_order=False, sees_used=sees_used)
+                half = None if core else [(2 * j + (si + seed) % 2) for j in range(12)]
+                valid += instantiate(sp, pools if core else pools[:1], half, tuple(range(n + 1)), each_order=False, sees_used=sees_used)
     for si, sp in enumerate(fs):
         n = len(sp.roles)
         if leak_masked and leaks_reference(sp):
@@ -621,6 +622,6 @@ def cases(seed, tier, sees_used=True, leak_masked=False):
             faulted += instantiate(sp, pools, pick, tuple(range(n + 1)), each_order=False, sees_used=sees_used)
         else:
             pools = [POOLS[(si + seed + 1) % len(POOLS)]]
-            faulted += instantiate(sp, pools, None if n <= 3 else [rng.randrange(24) for _ in range(4)], tuple(range(n + 1)),
+            faulted += instantiate(sp, pools, None if n <= 3 else [rng.randrange(24) for _ in range(3)], tuple(range(n + 1)),
                                    each_order=False, sees_used=sees_used)
     return valid, faulted
